@@ -14,11 +14,26 @@ PairDisjoint(p) ==
   /\ d + ss <= dl /\ s + ss <= dl
   /\ (d + ss <= s \/ s + ss <= d)
 PairsOk(e) == \A i \in 1..Len(e.pairs) : Chk(PairDisjoint(e.pairs[i]), <<"paired borrow overlaps or leaves the slab", e.pairs[i]>>)
+\* Direct requests (every index pair of a small slab, equal and out-of-range indices included, with a reorder
+\* mapping or not): the borrow is granted exactly when the two logical indices are in range and map to different
+\* symbols - then the two returned slices are the two symbols - and refused (panic, nothing handed out) otherwise.
+DirectOk(e) ==
+  \A i \in 1..Len(e.calls) :
+    LET c == e.calls[i]
+        inr == c.dest < e.count /\ c.src < e.count
+        admissible == inr /\ e.phys[c.dest + 1] # e.phys[c.src + 1]
+        ctx == <<"count", e.count, "ss", e.ss, "mapping", e.mapping, "dest", c.dest, "src", c.src, c.res, c.ret>>
+    IN IF admissible
+       THEN Chk(c.res = "ok" /\ c.ret = <<e.phys[c.dest + 1] * e.ss, e.ss, e.phys[c.src + 1] * e.ss, e.ss>>
+                /\ \A k \in 1..Len(c.hook) : PairDisjoint(c.hook[k]),
+                <<"admissible paired borrow refused or misplaced", ctx>>)
+       ELSE Chk(c.res = "panic", <<"paired borrow granted for equal or out-of-range indices", ctx>>)
 Init == v_pos = 1 /\ v_pairs = 0
 Step == /\ v_pos <= Len(Rec)
         /\ LET e == Rec[v_pos] IN
            \/ e.ev \in {"meta", "end"} /\ UNCHANGED v_pairs
            \/ e.ev = "pairs" /\ PairsOk(e) = TRUE /\ v_pairs' = v_pairs + Len(e.pairs)
+           \/ e.ev = "direct" /\ DirectOk(e) = TRUE /\ v_pairs' = v_pairs + Len(e.calls)
         /\ v_pos' = v_pos + 1
 Spec == Init /\ [][Step]_vars
 Accepted == LET d == TLCGet("stats").diameter IN
